@@ -443,11 +443,13 @@ def finish(mod, verdict, stages_by_name):
         "wall_s": round(time.time() - verdict.t0, 2), "violations": nviol,
     }
     if not getattr(verdict, "replay_mode", False):
-        os.makedirs(os.path.join(VERIF, "evidence"), exist_ok=True)
-        tmp = os.path.join(VERIF, "evidence", prop + ".json.tmp")
+        # evidence of a run against a scratch copy (VERIF_REPO set, self-test only) never replaces the real evidence
+        edir = os.path.join(VERIF, "evidence") if os.path.realpath(REPO) == "/repo" else os.path.join(RUNS_ROOT, prop, "evidence-alt")
+        os.makedirs(edir, exist_ok=True)
+        tmp = os.path.join(edir, prop + ".json.tmp")
         with open(tmp, "w") as fh:
             json.dump(ev, fh, indent=1, default=str, allow_nan=False)
-        os.replace(tmp, os.path.join(VERIF, "evidence", prop + ".json"))
+        os.replace(tmp, os.path.join(edir, prop + ".json"))
     if nviol:
         return 1
     if verdict.inconclusive:
